@@ -284,6 +284,7 @@ HOOK_OF_MODULE = {
     "helpers::buffers::ordering_sender": "ordering_sender", "protocol::prss": "prss", "query::state": "query_state",
     "helpers::gateway::send": "send", "helpers::transport::stream::input": "streams",
     "secret_sharing::vector::transpose": "transpose", "helpers::buffers::unordered_receiver": "unordered_receiver",
+    "protocol::ipa_prf::oprf_padding::distributions": "distributions",
     "": "root",
 }
 
